@@ -16,6 +16,11 @@ package outputstream
 //@   ensures noerror: result == nil
 //@   ensures wf: wfOS(os) && wfLast(os)
 //@   assume@after DB.Write#0 : no-io-error: callres == nil
+// every reader blocked in GetNext is woken (Broadcast, not Signal), and the cache entry of the batch
+// whose NextID is rewritten is dropped
+//@   assert@call Cond.Broadcast#0 : must-wake-all: callarg0 == os.newMessage
+//@   ensures tail: len(os.lastseen.Messages) == len(msgs) && os.lastseen.NextID == 18446744073709551615
+//@   ensures uncached: !(old(os.lastseen.Messages[0].Id.Id) in os.messagesCache)
 //@   modifies OutputStream.lastseen[os], OutputStream.batch[os], maptype(map[uint64]*messageBatch), leveldb.DB.seq[os.db]
 
 // The size computation of the hand-written encoder is not verified (trusted: it does not panic and
@@ -88,6 +93,10 @@ package outputstream
 //@ func OutputStream.Delete
 //@   requires wfOS(os) && wfLast(os)
 //@   ensures wf: wfOS(os) && wfLast(os)
+// after Delete(id) the cache holds nothing under id (a later Get cannot return the deleted batch), and
+// deleting anything but the newest batch leaves the in-memory copy of the newest batch alone
+//@   ensures uncached: result == nil ==> !(inputID.Id in os.messagesCache)
+//@   ensures tailkept: inputID.Id != old(os.lastseen.Messages[0].Id.Id) ==> os.lastseen.Messages[0].Id.Id == old(os.lastseen.Messages[0].Id.Id) && os.lastseen.NextID == old(os.lastseen.NextID) && len(os.lastseen.Messages) == old(len(os.lastseen.Messages))
 //@   assume@after iterator.Iterator.Last#0 : never-empty: callres
 //@   assume@after iterator.Iterator.Prev#0 : sentinel-kept: callres
 //@   assume@after unmarshalMessageBatch#0 : stored-by-add: len(callres.Messages) >= 1
